@@ -100,8 +100,24 @@ def r14_2(run):
     if st is None:
         return
     g = st.value.id
+    gradp = "grad"
     cfg = build_cfg(run, fi, switch_assumptions(fi, track=True, extra={"self.constant": False}))
     ns = cfg.node_for(st)
+    # the seed construction may live in a helper method: follow  <g> = self.<helper>(grad)  and judge the helper's returns
+    defs_ = reaching_defs(cfg, g, ns)
+    vals_ = [getattr(cfg.stmt[d], "value", None) for d in defs_ if d != ENTRY]
+    if len(vals_) == 1 and isinstance(vals_[0], ast.Call) and isinstance(vals_[0].func, ast.Attribute) and norm(vals_[0].func.value) == "self":
+        helper = facts(run).resolve_call(fi, vals_[0])
+        if isinstance(helper, FunctionInfo) and helper.cls is not None:
+            rets = [r for r in own_nodes(helper.node) if isinstance(r, ast.Return) and isinstance(r.value, ast.Name)]
+            hp = [a.arg for a in helper.node.args.args][1:]
+            passed = [norm(a) for a in vals_[0].args]
+            if len(rets) == 1 and "grad" in passed and passed.index("grad") < len(hp):
+                run.ob("R14.2", loc(fi, st), fi.short, f"seed built by helper {helper.short}, stored after it returns", True,
+                       "the helper call is the only reaching definition of the stored seed")
+                fi, st, g, gradp = helper, rets[0], rets[0].value.id, hp[passed.index("grad")]
+                cfg = build_cfg(run, fi, {})
+                ns = cfg.node_for(st)
     # (1) dtype: every reaching definition is *_like(self.data) or carries dtype=self.dtype
     defs = reaching_defs(cfg, g, ns)
     for d in defs:
@@ -114,7 +130,7 @@ def r14_2(run):
         run.ob("R14.2", loc(fi, cfg.stmt[d]), fi.short, f"seed definition {norm(v)[:60] if v is not None else '?'} has the tensor's dtype", ok,
                "*_like(self.data) or dtype=self.dtype" if ok else "the stored seed can have a dtype different from the tensor's")
     # (2) shape: under `grad is not None` every path to the store leaves a shape test on its false edge
-    cfg1 = build_cfg(run, fi, switch_assumptions(fi, track=True, extra={"self.constant": False, "grad is not None": True}))
+    cfg1 = build_cfg(run, fi, switch_assumptions(fi, track=True, extra={"self.constant": False, f"{gradp} is not None": True}))
     ns1 = cfg1.node_for(st)
     tests = [n for n, s in cfg1.stmt.items() if cfg1.label[n] == "If" and isinstance(s, ast.Compare) and len(s.ops) == 1
              and isinstance(s.ops[0], ast.NotEq) and norm(s.left) == f"{g}.shape" and norm(s.comparators[0]) == "self.shape"]
@@ -156,7 +172,7 @@ def r14_2(run):
                "no clear_graph() on any path to the raise" if not hit else
                "backward(grad) with an incompatible grad destroys the graph before raising: a later, valid backward() finds nothing to propagate through")
     # (5) default seed
-    cfg0 = build_cfg(run, fi, switch_assumptions(fi, track=True, extra={"self.constant": False, "grad is not None": False}))
+    cfg0 = build_cfg(run, fi, switch_assumptions(fi, track=True, extra={"self.constant": False, f"{gradp} is not None": False}))
     ns0 = cfg0.node_for(st)
     defs0 = reaching_defs(cfg0, g, ns0) if ns0 is not None else []
     ok = bool(defs0) and all(d != ENTRY and _like_self_data(getattr(cfg0.stmt[d], "value", None))
